@@ -21,7 +21,7 @@ func init() { core.Register(check{}) }
 func (check) ID() string    { return "C11" }
 func (check) Level() string { return "exploration" }
 func (check) Rule() string {
-	return "programs = every pair (from, to) where from is one of the base shapes (nested structs inside list/set elements, map keys and values, depth 3, ids beyond 64/256, non-struct roots) and to is derived from it by one structural edit at any struct node at any depth (drop each field; add a field of each requiredness x {scalar, struct, list}; change an existing field's requiredness) or is identical; each pair parsed in ONE IDL (sub-descriptors of unchanged subtrees are pointer-shared, the identical pair is the very same descriptor) and in two separate parses (equal but distinct descriptors); values = container size 0..2, a variant with the first field of every struct absent, a variant with a field unknown to the source descriptor; options = all 2^4 of {DisallowUnknow, NotCheckRequireNess, WriteDefault, UseNativeSkip}. Oracle = 50-line projection model over ref/tbin. A case = (pair, parse mode, value variant) running all 16 option sets; non-trivial if the target differs from the source or the identical-descriptor clause is exercised. Later additions: unknown fields inside elements, lists whose later elements lack the first / last field, a recursive protobuf program, pointer-shared sub-descriptors for root-level edits. Round 8: unpacked repeated scalar field in the proto program. Thorough tier: every pair of single edits at two different struct nodes of a base (about 34 000 further targets). Round 9: parse mode with SetOptionalBitmap; 1100 sub messages in one message (proto)."
+	return "programs = every pair (from, to) where from is one of the base shapes (nested structs inside list/set elements, map keys and values, depth 3, ids beyond 64/256, non-struct roots) and to is derived from it by one structural edit at any struct node at any depth (drop each field; add a field of each requiredness x {scalar, struct, list}; change an existing field's requiredness) or is identical; each pair parsed in ONE IDL (sub-descriptors of unchanged subtrees are pointer-shared, the identical pair is the very same descriptor) and in two separate parses (equal but distinct descriptors); values = container size 0..2, a variant with the first field of every struct absent, a variant with a field unknown to the source descriptor; options = all 2^4 of {DisallowUnknow, NotCheckRequireNess, WriteDefault, UseNativeSkip}. Oracle = 50-line projection model over ref/tbin. A case = (pair, parse mode, value variant) running all 16 option sets; non-trivial if the target differs from the source or the identical-descriptor clause is exercised. Later additions: unknown fields inside elements, lists whose later elements lack the first / last field, a recursive protobuf program, pointer-shared sub-descriptors for root-level edits. Round 8: unpacked repeated scalar field in the proto program. Thorough tier: every pair of single edits at two different struct nodes of a base (about 34 000 further targets). Round 9: parse mode with SetOptionalBitmap; 1100 sub messages in one message (proto). Round 10: struct fields in descending id order."
 }
 func (check) Assumptions() []string {
 	return []string{"reference = ref/tbin + projection model in checks/c11", "where source and target sub-descriptors are the same object the library copies the bytes verbatim (no requiredness check, no zero filling inside): the statement's 'identical descriptors reproduce the input' clause; the model takes descriptor identity as an input", "zero-filled default fields are appended after the source fields in ascending id order; compared in that order", "Protobuf half: see group names proto/* (added when ref/pbref is available)"}
